@@ -1,8 +1,8 @@
 SPECIFICATION Spec
-CONSTANT Cfg <- MCCfgSmall
+CONSTANT Cfg <- MCCfgMedium
 CONSTANT Movable <- MovFirst
-CONSTANT Limits <- LimTwo
-CONSTANT PelletInit <- PelSmall5
+CONSTANT Limits <- LimLong
+CONSTANT PelletInit <- PelMedium7
 CONSTRAINT Bounded
 INVARIANT Protocol
 INVARIANT MaskSound
